@@ -742,3 +742,101 @@ func TestWriteCrashPoints(t *testing.T) {
 	}
 	crashSpec.Check(t)
 }
+
+// ---- the write fails part of the way (file size limit = disk full / quota) -----------------------------------------
+
+type FaultCase struct {
+	Crash CrashCase `json:"crash"`
+	// Limit selects the file size limit of the writing process: 0..3 = 1 byte, 64 bytes, half of the new content, the new
+	// content less one byte; 4 = exactly the new content (the write fits)
+	Limit int `json:"limit"`
+}
+
+func runWriteFault(fc FaultCase) *pbt.Result {
+	c := fc.Crash
+	c.Symlink = false
+	if err := checkCaseFile(&c.File); err != nil {
+		if strings.Contains(err.Error(), "environment variable") {
+			return &pbt.Result{Classes: []string{"skipped:key-is-environment-variable"}}
+		}
+		panic(err)
+	}
+	eff, ok := effectiveSet(c.Set, c.Prefix, "", c.Exclude)
+	if !ok {
+		panic("case precondition: colliding keys")
+	}
+	for k := range eff {
+		if _, isEnv := os.LookupEnv(k); isEnv {
+			return &pbt.Result{Classes: []string{"skipped:key-is-environment-variable"}}
+		}
+	}
+	work := mkHome()
+	defer os.RemoveAll(work)
+	oldContent := c.content(0)
+	run := func(name string, limit int) (string, *pbt.Result) {
+		home := filepath.Join(work, name)
+		if err := os.Mkdir(home, 0o755); err != nil {
+			panic(err)
+		}
+		path := filepath.Join(home, confName)
+		if err := writeAt(path, oldContent, baseSec*1e9); err != nil {
+			panic(err)
+		}
+		spec := setValuesSpec{Home: home, Prefix: c.Prefix, Exclude: c.Exclude, Set: c.Set, FileLimit: limit}
+		out, exit, timedOut, err := runHelper("setvalues", spec, work, nil, nil, 120*time.Second)
+		if err != nil || timedOut || exit != 0 || !strings.Contains(out, "C18HELPER-END") {
+			if exit == 5 {
+				return "", &pbt.Result{Classes: []string{"skipped:no-file-size-limit-here"}}
+			}
+			panic(fmt.Sprintf("harness: helper failed (exit %d, timed out %v): %v %.2000s", exit, timedOut, err, out))
+		}
+		b, err := os.ReadFile(path)
+		if err != nil {
+			return "", pbt.Fail("after a SetValues under a file size limit of %d bytes the configuration file cannot be read: %v", limit, err)
+		}
+		return string(b), nil
+	}
+	newContent, res := run("free", 0)
+	if res != nil {
+		return res
+	}
+	if err := checkWritten(oldContent, newContent, eff); err != nil {
+		return pbt.Fail("the completed write is wrong: %v", err)
+	}
+	limit := []int{1, 64, len(newContent) / 2, len(newContent) - 1, len(newContent)}[fc.Limit%5]
+	if limit < 1 {
+		limit = 1
+	}
+	got, res := run("limited", limit)
+	if res != nil {
+		return res
+	}
+	cls := []string{fmt.Sprintf("limit-kind=%d", fc.Limit%5)}
+	switch {
+	case got == oldContent:
+		cls = append(cls, "result:old-content-kept")
+	case got == newContent:
+		cls = append(cls, "result:new-content")
+		if limit < len(newContent) {
+			return pbt.Fail("the writing process may not write files beyond %d bytes, yet the configuration file holds the new content of %d bytes", limit, len(newContent))
+		}
+	case len(got) == len(newContent) && checkWritten(oldContent, got, eff) == nil && limit >= len(newContent):
+		// several new keys are appended in no particular order: another complete new content of the same size
+		cls = append(cls, "result:new-content(other-key-order)")
+	default:
+		return pbt.Fail("the write of the new content (%d bytes) failed part of the way (file size limit %d bytes, as on a full disk); afterwards the configuration file holds %d bytes that are neither the old (%d bytes) nor the new complete content: %q", len(newContent), limit, len(got), len(oldContent), abbreviate(got, 160))
+	}
+	return &pbt.Result{NT: limit < len(newContent) && oldContent != newContent, Classes: cls}
+}
+
+var faultSpec = pbt.Register(pbt.Spec[FaultCase]{
+	Prop: "C18", Name: "write-fails-part-of-the-way",
+	Rule:  "cases as in write-crash-points (without the symbolic link); the SetValues is performed twice by a helper process on copies of the same home: once unhindered (its result, judged by the write-back oracle, is the new content) and once with the process's file size limit (RLIMIT_FSIZE, SIGXFSZ ignored) set to 1 byte, 64 bytes, half of the new content, the new content less one byte, or exactly the new content, so that writing the new content fails with EFBIG part of the way - the fault a full disk or an exhausted quota produces (seed C18-s24); afterwards the configuration file must hold exactly the old or exactly the new complete content; non-trivial = the limit is below the new content and the content would change; distinct by case",
+	Quick: 60, Thorough: 2000,
+	Draw: func(t *rapid.T) FaultCase {
+		return FaultCase{Crash: drawCrash(t), Limit: rapid.IntRange(0, 4).Draw(t, "limit")}
+	},
+	Run: runWriteFault,
+})
+
+func TestWriteFailsPartOfTheWay(t *testing.T) { faultSpec.Check(t) }
